@@ -64,8 +64,9 @@ type TunnelCfg struct {
 // Cfg is one configuration.
 type Cfg struct {
 	Name     string      `json:"name"`
-	Group    bool        `json:"group"`   // a bandtss current signing group exists (2-of-2)
-	InitDE   uint64      `json:"init_de"` // nonce pairs per member in the base state
+	Group    bool        `json:"group"`    // a bandtss current signing group exists (2-of-2)
+	Incoming bool        `json:"incoming"` // bootstrap window: no current group, the first group (2-of-2) waits for its execution time
+	InitDE   uint64      `json:"init_de"`  // nonce pairs per member in the base state
 	Tunnels  []TunnelCfg `json:"tunnels"`
 	Signals  []string    `json:"signals"` // environment signals (index used in events)
 	Init     []string    `json:"init"`    // initial price token per signal
@@ -97,6 +98,11 @@ func (s *spec) routeFee(ti int) int64 {
 	}
 	return 0
 }
+
+// signers reports whether some group can sign: the current group or, in the bootstrap window, the
+// incoming one.  Only a current group makes bandtss charge (FeePerSigner x threshold): the route fee
+// is what the route really costs at that moment.
+func (s *spec) signers() bool { return s.cfg.Group || s.cfg.Incoming }
 
 func (s *spec) totalFee(ti int) int64 { return baseFee + s.routeFee(ti) }
 
@@ -282,7 +288,10 @@ func (s *spec) writePrice(w *engine.World, ctx sdk.Context, sig string, p mPrice
 func (s *spec) Build(w *engine.World) (sdk.Context, engine.Model) {
 	ctx := engine.Fork(w.Root)
 	m := &model{Phase: -1}
-	if s.cfg.Group {
+	if s.cfg.Group && s.cfg.Incoming {
+		panic("config: group and incoming are exclusive")
+	}
+	if s.signers() {
 		tssh.ApplyParams(w, ctx, tssh.Params{})
 		bp := w.App.BandtssKeeper.GetParams(ctx)
 		bp.RewardPercentage = 0
@@ -290,8 +299,28 @@ func (s *spec) Build(w *engine.World) (sdk.Context, engine.Model) {
 		if err := w.App.BandtssKeeper.SetParams(ctx, bp); err != nil {
 			panic(err)
 		}
-		g, c2 := tssh.SetupCurrentGroup(w, ctx, nMembers, threshold, 8)
-		s.g, ctx = g, c2
+		if s.cfg.Group {
+			g, c2 := tssh.SetupCurrentGroup(w, ctx, nMembers, threshold, 8)
+			s.g, ctx = g, c2
+		} else {
+			// first-ever transition: proposed by the authority, DKG completed, execution time far beyond
+			// the explored depth: signing works (incoming group), but bandtss charges nothing
+			accs := tssh.Accounts(nMembers, 8)
+			for _, a := range accs {
+				tssh.Fund(w, ctx, a.Address, 1_000_000)
+			}
+			g, res := tssh.ProposeGroup(w, ctx, accs, threshold, ctx.BlockTime().Add(time.Hour))
+			tssh.Must(res, "transition group")
+			ctx = g.RunDKG(w, ctx)
+			s.g = g
+			bk := w.App.BandtssKeeper
+			tr, found := bk.GetGroupTransition(ctx)
+			if bk.GetCurrentGroup(ctx).GroupID != 0 || bk.GetIncomingGroupID(ctx) != g.ID || !found ||
+				tr.Status != bandtsstypes.TRANSITION_STATUS_WAITING_EXECUTION {
+				panic(fmt.Sprintf("bootstrap window not reached: current %d incoming %d transition %+v", bk.GetCurrentGroup(ctx).GroupID, bk.GetIncomingGroupID(ctx), tr))
+			}
+		}
+		g := s.g
 		for i := 0; i < nMembers; i++ {
 			if s.cfg.InitDE > 0 {
 				tssh.Must(w.Tx(ctx, 0, tssh.SubmitDEsMsg(g.Accounts[i].Address.String(), 0, s.cfg.InitDE)), "init DEs")
@@ -432,7 +461,7 @@ func (s *spec) Enabled(w *engine.World, ctx sdk.Context, mm engine.Model, depth 
 			}
 		}
 	}
-	if s.cfg.Group && s.cfg.DEAdd > 0 {
+	if s.signers() && s.cfg.DEAdd > 0 {
 		for i := range m.DE {
 			if ok("de", i) && m.DE[i]+s.cfg.DEAdd <= s.cfg.DECap {
 				evs = append(evs, fmt.Sprintf("de:%d:%d", i, s.cfg.DEAdd))
@@ -485,7 +514,7 @@ func digest(p tunneltypes.Packet) string {
 // tssRouteOpen is the number of signings the signing group can still start: one nonce pair of
 // every member each (n = t), none without a group.
 func (s *spec) tssCapacity(m *model) uint64 {
-	if !s.cfg.Group {
+	if !s.signers() {
 		return 0
 	}
 	c := m.DE[0]
@@ -1030,6 +1059,9 @@ func (s *spec) Step(w *engine.World, ctx sdk.Context, mm engine.Model, ev string
 				}
 				if plans[ti].full {
 					st.Saw("packet:interval")
+					if s.cfg.Incoming {
+						st.Saw("packet:incoming-group-only:balance=" + strconv.FormatInt(s.cfg.Tunnels[ti].Balance, 10))
+					}
 				} else {
 					st.Saw("packet:hard-deviation")
 					for _, sig := range plans[ti].content {
@@ -1103,7 +1135,7 @@ func (s *spec) failKind(ti int) string {
 	switch {
 	case s.cfg.Tunnels[ti].Route == "ibc":
 		return "ibc-no-channel"
-	case !s.cfg.Group:
+	case !s.signers():
 		return "no-signing-group"
 	default:
 		return "members-out-of-nonces"
@@ -1114,6 +1146,8 @@ func (s *spec) routeKind(ti int) string {
 	switch {
 	case s.cfg.Tunnels[ti].Route == "ibc":
 		return "ibc-no-channel"
+	case s.cfg.Incoming:
+		return "tss-incoming-only"
 	case !s.cfg.Group:
 		return "tss-no-group"
 	default:
@@ -1135,9 +1169,10 @@ func init() {
 	engine.Register(&engine.Check{
 		ID: "C08",
 		Run: func(r *engine.Run) {
-			r.Bound = "per configuration 1-2 active tunnels (TSS route on a real 2-of-2 signing group / TSS route without a group / IBC route without channel) x 2 signals, soft/hard in {(100,300),(300,300)} bps, interval in {2,4} s (min=2) or 3600 s; every sequence of <= depth events from {Price(signal, token) over per-signal alphabets drawn from {missing,0,100,101,102,103,105,120; available/not-ready}, Fund(feePayer, amount), SubmitDEs(member), Activate/Deactivate, Withdraw/Deposit(creator, amount; keeping the deposit >= min or taking it below), Trigger, Block(dt in {1,2,4})}, modulo the order of independent environment writes inside one block segment; depth 5-6 (quick) / 6-8 (thorough)"
+			r.Bound = "per configuration 1-2 active tunnels (TSS route on a real 2-of-2 current signing group / TSS route with only an incoming group waiting for execution / TSS route without a group / IBC route without channel) x 2 signals, soft/hard in {(100,300),(300,300)} bps, interval in {2,4} s (min=2) or 3600 s; every sequence of <= depth events from {Price(signal, token) over per-signal alphabets drawn from {missing,0,100,101,102,103,105,120; available/not-ready}, Fund(feePayer, amount), SubmitDEs(member), Activate/Deactivate, Withdraw/Deposit(creator, amount; keeping the deposit >= min or taking it below), Trigger, Block(dt in {1,2,4})}, modulo the order of independent environment writes inside one block segment; depth 5-6 (quick) / 6-8 (thorough)"
 			r.Assumptions = []string{
 				"prices are environment input written with the feeds keeper while the feeds current-feed list is empty (the feeds end-blocker then leaves Price records alone; no current-feeds update height falls into the explored range)",
+				"bootstrap-window configuration: no current group, the first 2-of-2 group waits for an execution time one hour ahead (never reached); bandtss charges nothing there, so the route fee is 0 and a fee payer holding the base fee is solvent",
 				"TSS route: one real 2-of-2 group (n = t, so every signing consumes one nonce pair of every member); signings created by packets are never signed and do not expire within the explored depth (SigningPeriod 100 blocks)",
 				"IBC route is only explored without a channel (every send fails); a successful IBC send would need a full IBC handshake",
 				"route failure 'fee above limit' is unreachable from the end-blocker because the limit passed to bandtss is the route fee computed in the same context; it is not in the alphabet",
@@ -1148,6 +1183,7 @@ func init() {
 			r.Required = []string{"packet:interval", "packet:hard-deviation", "packet:soft-rider", "packet:partial", "not-due", "not-due:soft-only",
 				"deactivated:short-funds", "inactive-and-due:no-packet", "wd:stays-active", "wd:below-min-deactivates", "wd:inactive", "dep:inactive", "dep:active",
 				"route-failure:members-out-of-nonces", "route-failure:no-signing-group", "route-failure:ibc-no-channel",
+				"packet:incoming-group-only:balance=7", "packet:incoming-group-only:balance=12", "trigger-rejected:short-funds:tss-incoming-only",
 				"trigger:packet", "trigger-rejected:inactive:tss", "trigger-rejected:short-funds:tss",
 				"trigger-rejected:route-fails:tss", "trigger-rejected:route-fails:tss-no-group", "trigger-rejected:route-fails:ibc-no-channel"}
 			deadline := r.Deadline(4*time.Minute, 40*time.Minute)
